@@ -21,6 +21,10 @@ uint32_t g_nGuards = 0;
 uint32_t g_nLib = 0;
 // indexed by guard id (1-based). The coverage callbacks run from module constructors, possibly
 // before this file's globals are constructed: keep the table behind a function-local static.
+std::vector<uintptr_t>& pcTable() {
+  static std::vector<uintptr_t>* v = new std::vector<uintptr_t>();
+  return *v;
+}
 std::vector<uint8_t>& isLibTable() {
   static std::vector<uint8_t>* v = new std::vector<uint8_t>();
   return *v;
@@ -71,6 +75,16 @@ uint32_t libraryGuards() {
 }
 uint32_t totalGuards() {
   return g_nGuards;
+}
+uintptr_t guardPc(uint32_t id) {
+  return id < pcTable().size() ? pcTable()[id] : 0;
+}
+std::string guardSymbol(uint32_t id) {
+  Dl_info info;
+  uintptr_t pc = guardPc(id);
+  if (pc && dladdr(reinterpret_cast<void*>(pc), &info) && info.dli_sname)
+    return std::string(info.dli_sname) + "+" + std::to_string(pc - reinterpret_cast<uintptr_t>(info.dli_saddr));
+  return "?";
 }
 
 static void onGuard(uint32_t id) {
@@ -223,6 +237,9 @@ extern "C" void __sanitizer_cov_pcs_init(const uintptr_t* beg, const uintptr_t* 
     uint32_t id = next++;
     if (id >= sim::sched::isLibTable().size())
       sim::sched::isLibTable().resize(id + 1, 0);
+    if (id >= sim::sched::pcTable().size())
+      sim::sched::pcTable().resize(id + 1, 0);
+    sim::sched::pcTable()[id] = p[0];
     Dl_info info;
     if (dladdr(reinterpret_cast<void*>(p[0]), &info) && info.dli_sname) {
       const char* n = info.dli_sname;
